@@ -377,7 +377,7 @@ func sameTables(a, b []originium.VerifTable) bool {
 func genC09(tier string, seed int64) []core.Case {
 	n := 400
 	if tier == "thorough" {
-		n = 12000
+		n = 6000
 	}
 	r := rand.New(rand.NewSource(seed*15485863 + 9))
 	var cs []core.Case
@@ -390,7 +390,7 @@ func genC09(tier string, seed int64) []core.Case {
 	}
 	ndb := 12
 	if tier == "thorough" {
-		ndb = 300
+		ndb = 150
 	}
 	for _, c := range genSeq(tier, seed+9, "C09", ndb, ndb) {
 		c.Kind = "db"
